@@ -28,6 +28,7 @@ from harness import lean_audit  # noqa
 
 PLUGINS = {
     "C01": "harness.p_m1", "C02": "harness.p_m1",
+    "C05": "harness.p_m3", "C06": "harness.p_m3", "C20": "harness.p_m3",
 }
 
 NPROC = int(os.environ.get("VERIF_NPROC", "16"))
